@@ -282,6 +282,9 @@ def term(e, ctx):
     if k == "zst":
         return ("zst", short_ty(e["ty"]))
     if k == "closure":
+        tr = getattr(ctx, "translator", None)
+        if tr is not None:
+            return tr.closure_term(e["def"], ctx)       # translated where it occurs: the variables it captures are in scope here
         return ("closure", e["def"])
     if k == "tuple":
         return ("tuple",) + tuple(term(x, ctx) for x in e["es"])
@@ -515,6 +518,7 @@ class Translator:
         return ("lambda", tuple(params), b)
 
     def term(self, e, ctx):
+        ctx.translator = self
         t = term(e, ctx)
         return self._inline(t, ctx)
 
@@ -628,6 +632,23 @@ def _flip_not(t):
             t = ("if", ("op", "gt") + t[1][2:], t[3], t[2])
         elif t[1][1] == "ge":
             t = ("if", ("op", "lt") + t[1][2:], t[3], t[2])
+    # if !x && !y {A} else {B}  ==  if x || y {B} else {A}
+    if _is(t, "if") and len(t) == 4 and t[3] != ("unit",) and _is(t[1], "op") and len(t[1]) == 5 and t[1][1] == "and":
+        con = []
+
+        def flatc(c):
+            if _is(c, "op") and len(c) == 5 and c[1] == "and":
+                flatc(c[3]); flatc(c[4])
+            else:
+                con.append(c)
+        flatc(t[1])
+        def negative(d):
+            return (_is(d, "un") and d[1] == "not") or (_is(d, "call") and isinstance(d[1], str) and d[1].endswith("cmp::PartialEq>::ne")) or (_is(d, "op") and len(d) == 5 and d[1] == "ne")
+        if len(con) > 1 and all(negative(d) for d in con):
+            dis = _neg(con[0])
+            for d in con[1:]:
+                dis = ("op", "or", "bool", dis, _neg(d))
+            t = ("if", dis, t[3], t[2])
     # a != b is exactly !(a == b) (also for NaN)
     if _is(t, "if") and len(t) == 4 and t[3] != ("unit",) and _is(t[1], "op") and len(t[1]) == 5 and t[1][1] == "ne":
         t = ("if", ("op", "eq") + t[1][2:], t[3], t[2])
@@ -645,6 +666,20 @@ def normalise(t):
         return ("Err",)
     if h == "errmsg":
         return ("errmsg",)
+    if h == "call" and t[1] in ("Option::map_or", "Option::map_or_else") and len(t) == 5 and (_is(t[4], "lambda") or _is(t[4], "fnref")):
+        # x.map_or(d, f) == match x { Some(v) => f(v), None => d }      (map_or_else: d is a thunk)
+        _FOLD_CTR[0] += 1
+        v = "b%d" % _FOLD_CTR[0]
+        d = t[3]
+        if t[1] == "Option::map_or_else":
+            d = ("icall", t[3]) if not (_is(t[3], "lambda") and not t[3][1]) else t[3][2]
+        return normalise(("match", t[2], (("pvar", "Option::Some", ("bind", v)), ("icall", t[4], ("var", v))), (("pvar", "Option::None"), d)))
+    if h == "call" and isinstance(t[1], str) and re.match(r"^Iterator::product::<(i8|i16|i32|i64|u8|u16|u32|u64|usize|isize)>$", t[1]) and len(t) == 3 and (_is(t[2], "range") or _is(t[2], "rangei")):
+        # (a..=b).product::<int>()  ==  let mut m = 1; for i in a..=b { m *= i }; m        (std panics on overflow exactly where `*=` does)
+        ty = t[1][len("Iterator::product::<"):-1]
+        _FOLD_CTR[0] += 1
+        m, i_ = "m%d" % _FOLD_CTR[0], "b%d" % _FOLD_CTR[0]
+        return normalise(("seq", ("let", m, ("lit", "1", ty)), ("for", ("bind", i_), t[2], ("setop", "mul", ty, ("var", m), ("var", i_))), ("var", m)))
     if h == "call" and t[1] == "bool::then" and len(t) == 4 and _is(t[3], "lambda") and len(t[3]) == 3 and not t[3][1]:
         # c.then(|| x)  ==  if c { Some(x) } else { None }
         return normalise(("if", t[2], ("Some", t[3][2]), ("None",)))
@@ -707,6 +742,29 @@ def normalise(t):
             else:
                 flat.append(x)
         items = _strip_unit_tail(flat)
+        # let (a, b) = (x, y)   ==  let a = x; let b = y
+        flat1 = []
+        for x in items:
+            if _is(x, "letpat") and len(x) == 3 and _is(x[1], "pleaf") and _is(x[2], "tuple") and len(x[1]) == len(x[2]) and all(_is(b_, "bind") for b_ in x[1][1:]):
+                for b_, v_ in zip(x[1][1:], x[2][1:]):
+                    flat1.append(("let", b_[1], v_))
+                # (the bindings are immutable: they are substituted below like every other immutable binding whose
+                #  value does not read a mutable local)
+            else:
+                flat1.append(x)
+        if flat1 != list(items):
+            return normalise(("seq",) + tuple(flat1))
+        # immutable bindings introduced by the rewriting above (b<k>): substituted into their uses, as the translator
+        # does for `let x = e;` (same convention: only if e reads no mutable local and calls no parser method)
+        for i, x in enumerate(items):
+            if _is(x, "let") and len(x) == 3 and isinstance(x[1], str) and re.match(r"^b\d+$", x[1]) and not _reads_mutable(x[2]) and not any(is_effect_call(y) for y in _subterms(x[2])):
+                def sb(z, a=x[1], val=x[2]):
+                    if isinstance(z, tuple):
+                        if z == ("var", a):
+                            return val
+                        return tuple(sb(w) for w in z)
+                    return z
+                return normalise(("seq",) + tuple(items[:i]) + tuple(sb(r_) for r_ in items[i + 1:]))
         # let x = { a; b; v }   ==  a; b; let x = v
         flat2 = []
         for x in items:
@@ -770,6 +828,8 @@ def normalise(t):
         return normalise(("op", "or", "bool", t[1], t[3]))         # if a {true} else {b}  ==  a || b
     if h == "if":
         t = _flip_not(t)
+    if h == "set" and len(t) == 3 and _is(t[2], "op") and len(t[2]) == 5 and t[2][3] == t[1] and t[2][1] in ("add", "sub", "mul", "div", "rem"):
+        return ("setop", t[2][1], t[2][2], t[1], t[2][4])       # x = x op e  ==  x op= e
     if h == "set" and len(t) == 3 and isinstance(t[1], tuple) and t[1][0] in ("var", "field"):
         # x = match s {p => a, q => b}   ==  match s {p => x = a, q => x = b}      (likewise if)
         if _is(t[2], "match") and len(t[2]) > 2 and all(len(a) == 2 for a in t[2][2:]):
